@@ -221,8 +221,8 @@ var newMap = Func(func(a Arguments) reflect.Value {
 		if !key.Type().ConvertibleTo(stringType) {
 			a.Panicf("map(): can't use %+v as string key: %s is not convertible to string", key, key.Type())
 		}
-		key = key.Convert(stringType)
-		m.SetMapIndex(a.Get(i), a.Get(i+1))
+		// (the key has been evaluated: use it, converted, instead of evaluating the argument again)
+		m.SetMapIndex(key.Convert(stringType), a.Get(i+1))
 	}
 
 	return m
